@@ -151,6 +151,35 @@ theorem nth0_dropZ (l : List Nat) (i : Nat) : nth0 (dropZ l) i = nth0 l i := by
   · exact nth0_take _ _ _ hi
   · rw [nth0_beyond _ _ (by simp [List.length_take]; omega), h3 i (by omega)]
 
+theorem dropZGo_stop : ∀ (r : List Nat) (k : Nat), ∃ j, dropZGo r k = r.drop j ∧ j ≤ k ∧
+    (j < k → (r.drop j).head? ≠ some 0)
+  | r, 0 => ⟨0, by cases r <;> simp [dropZGo], Nat.le_refl _, fun h => absurd h (Nat.lt_irrefl _)⟩
+  | [], k + 1 => ⟨0, by simp [dropZGo], Nat.zero_le _, by simp⟩
+  | x :: rest, k + 1 => by
+    by_cases hx : x = 0
+    · subst hx
+      obtain ⟨j, h1, h2, h3⟩ := dropZGo_stop rest k
+      exact ⟨j + 1, by simp [dropZGo, h1], by omega, fun h => by simpa using h3 (by omega)⟩
+    · have h2 : (x == 0) = false := by simp [hx]
+      exact ⟨0, by simp [dropZGo, h2], Nat.zero_le _, fun _ => by simp [hx]⟩
+
+/-- more than two segments survive only if a third-or-later component is non-zero -/
+theorem dropZ_long (l : List Nat) (h : 2 < (dropZ l).length) : ∃ i, 2 ≤ i ∧ nth0 l i ≠ 0 := by
+  obtain ⟨j, h1, h2, h3⟩ := dropZGo_stop l.reverse (l.length - 2)
+  have hlen : (dropZ l).length = l.length - j := by
+    unfold dropZ; rw [h1]; simp
+  have hj : j < l.length - 2 := by omega
+  have hne := h3 hj
+  have hjl : j < l.reverse.length := by simp; omega
+  rw [List.head?_drop, List.getElem?_eq_getElem hjl] at hne
+  refine ⟨l.length - 1 - j, by omega, ?_⟩
+  have hidx : l.length - 1 - j < l.length := by omega
+  have : l.reverse[j] = l[l.length - 1 - j] := by
+    rw [List.getElem_reverse]
+  rw [this] at hne
+  simp only [nth0, List.getD_eq_getElem?_getD, List.getElem?_eq_getElem hidx, Option.getD_some]
+  intro h0; rw [h0] at hne; exact hne rfl
+
 theorem dropZ_length (l : List Nat) (h : l ≠ []) : 1 ≤ (dropZ l).length := by
   obtain ⟨j, h1, h2, _⟩ := dropZ_spec l
   have : 1 ≤ l.length := List.length_pos_iff.2 h
@@ -222,11 +251,12 @@ theorem norm_shape (a : Atom) (cop : COp) (rel : List Nat) (w : Bool) (hrel : re
   have hopn : (MOp.ofCOp cop == MOp.in_ || MOp.ofCOp cop == MOp.notIn) = false := by cases cop <;> rfl
   unfold normalizePythonVersion at hns
   simp only [hopn, Bool.false_eq_true, if_false] at hns
-  show ns = spec ∨ _
+  show (ns = spec ∧ _) ∨ _
   cases w with
   | true =>
     -- wildcard operand: returned unchanged
     left
+    refine ⟨?_, Or.inl rfl⟩
     have hs0 : (splitDots (".".intercalate (rel.map toString) ++ ".*")).map trimS = rel.map toString ++ ["*"] :=
       splitDots_wild _ rel hrel (by rw [String.toList_append, toList_join_plain]; rfl)
     simp only [if_true, hs0] at hns
@@ -241,6 +271,7 @@ theorem norm_shape (a : Atom) (cop : COp) (rel : List Nat) (w : Bool) (hrel : re
     · -- `~=`: no dropping, no padding, the same text again
       subst hcomp
       left
+      refine ⟨?_, Or.inr (Or.inl rfl)⟩
       simp only [MOp.ofCOp, bne_self_eq_false, Bool.false_eq_true, if_false, Bool.and_false] at hns
       split at hns
       · simp only [Option.some.injEq] at hns; exact hns.symm
@@ -257,7 +288,10 @@ theorem norm_shape (a : Atom) (cop : COp) (rel : List Nat) (w : Bool) (hrel : re
     · have hb : (MOp.ofCOp cop != MOp.compat) = true := by cases cop <;> first | rfl | exact absurd rfl hcomp
       simp only [hb, if_true, dropZeroSegs_map, List.length_map, Bool.and_true] at hns
       split at hns
-      · left; simp only [Option.some.injEq] at hns; exact hns.symm
+      · rename_i hlong
+        left
+        simp only [Option.some.injEq] at hns
+        exact ⟨hns.symm, Or.inr (Or.inr (dropZ_long rel (by simpa using hlong)))⟩
       · rename_i hlen
         right
         have hlen1 := dropZ_length rel hrel
